@@ -81,6 +81,38 @@ def judge(ctx, label, scripts, impl, dis, reported):
     tie.report_disagreements(ctx, [d for d in dis if d[0] not in bad], label)
 
 
+def repeated_evaluation_scripts():
+    """an expression that builds a container builds a NEW one every time it is evaluated (loop iterations, calls), and `for`
+    binds a pair of its own in every iteration: containers kept from different evaluations are distinct and independent"""
+    builders = [
+        ("list-literal", "[0, 1]", "[0]", "9", "0"), ("object-literal", '{"k": 0}', '["k"]', "9", "0"),
+        ("nested-literal", "[[0], [1]]", "[0][0]", "9", "0"), ("range", "0 .. 3", "[0]", "9", "0"),
+        ("slice", "src[0:2]", "[0]", "9", "5"), ("concat", "src + src", "[0]", "9", "5"), ("spread", "[src..]", "[0]", "9", "5"),
+        ("object-spread", '{osrc..}', '["k"]', "9", "7"), ("call-rest", "rest(5, 6)", "[0]", "9", "5"),
+    ]
+    pre = 'src := [5, 6, 7]\nosrc := {"k": 7}\nfn rest(..r) { return r; }\n'
+    out = []
+    for name, expr, path, newv, oldv in builders:
+        # twice in a loop
+        out.append(((name, "loop"), pre + f"keep := []\nfor [i, v] in [1, 2] {{\n    c := {expr}\n    keep += [c]\n}}\nprint(keep[0] === keep[1])\n"
+                    f"keep[0]{path} = {newv}\nprint(keep[1]{path})\nprint(keep[0]{path})\n", f"false\n{oldv}\n{newv}\n"))
+        # twice through a function
+        out.append(((name, "call"), pre + f"fn mk() {{ return {expr}; }}\na := mk()\nb := mk()\nprint(a === b)\na{path} = {newv}\nprint(b{path})\n"
+                    f"print(mk(){path})\n", f"false\n{oldv}\n{oldv}\n"))
+        # twice in a while loop, the first one updated while the second is built
+        out.append(((name, "while"), pre + f"keep := []\nn := 0\nwhile n < 2 {{\n    n += 1\n    keep += [{expr}]\n    keep[0]{path} = {newv}\n}}\n"
+                    f"print(keep[1]{path})\n", f"{oldv}\n"))
+    for it, first, second in [('["a", "b", "c"]', "[\n    0,\n    a,\n]\n", "b"), ('"xyz"', "[\n    0,\n    x,\n]\n", "y"),
+                              ('{"p": 1, "q": 2}', "[\n    p,\n    1,\n]\n", "2"), ("5 .. 8", "[\n    0,\n    5,\n]\n", "6")]:
+        out.append((("for-pair", it[:5]), f"keep := []\nfor p in {it} {{\n    keep += [p]\n}}\nprint(keep[0] === keep[1])\nprint(keep[0])\n"
+                    f"keep[0][1] = \"w\"\nprint(keep[1][1])\n", f"false\n{first}{second}\n"))
+        out.append((("for-pair-closure", it[:5]), f"fs := []\nfor p in {it} {{\n    fs += [fn() {{ return p; }}]\n}}\nprint(fs[0]() === fs[1]())\n"
+                    f"print(fs[0]() === fs[0]())\nprint(fs[0]())\n", f"false\ntrue\n{first}"))
+    out.append((("collect", "loop"), "src := [1, 2, 3]\nkeep := []\nfor [i, v] in [1, 2] {\n    [h, ..t] := src\n    keep += [t]\n}\nprint(keep[0] === keep[1])\n"
+                "keep[0][0] = 9\nprint(keep[1][0])\nprint(src)\n", "false\n2\n[\n    1,\n    2,\n    3,\n]\n"))
+    return [((k[0], k[1], "repeated-evaluation"), s, o) for k, s, o in out]
+
+
 def run(ctx, model_ok):
     thorough = ctx.tier == "thorough"
     bound = 4 if thorough else 3
@@ -115,6 +147,13 @@ def run(ctx, model_ok):
         flush()
         ctx.dist("distinct_heap_shapes:" + init, ex.shapes)
         ctx.exclude("heap_larger_than_4_containers", ex.too_big)
+    # the same builder evaluated repeatedly
+    rep = repeated_evaluation_scripts()
+    for tags, src, exp in rep:
+        ctx.nontrivial(("repeated", tags))
+        ctx.dist("repeated_evaluation:" + tags[1])
+    impl, dis = tie.run(ctx, [s[1] for s in rep], "repeated_evaluation", model_ok, project=tie.proj_full)
+    judge(ctx, "repeated_evaluation", rep, impl, dis, reported)
     # random longer histories
     n = 40000 if thorough else 4000
     rh = [A.random_history(ctx.rng, ctx.rng.choice(list(A.INITS)), ctx.rng.randrange(5, 13)) for _ in range(n)]
